@@ -635,3 +635,42 @@ Proof.
   - rewrite IH. cbn [rev app]. rewrite map_app. cbn [map]. now rewrite app_comm_cons.
   - rewrite IH. now rewrite app_comm_cons.
 Qed.
+
+(* ------------------------------------------------------------------ *)
+(* C12: nothing happens to a file before the walker has sent it        *)
+(* (the walker announces Size(h) in the step that sends h, so in every  *)
+(* prefix of every schedule the Copied updates of h come after Size(h)) *)
+(* ------------------------------------------------------------------ *)
+Theorem events_after_walk W Q ops s : reachable W Q ops s ->
+  forall e, In e (b_ev s) -> ev_handle e < b_next s.
+Proof.
+  induction 1 as [|s l s' Hr IH Hs]; [intros e []|].
+  pose proof (inv_reachable W Q ops s Hr) as HI. inv_fields HI.
+  destruct s as [todo next wdone fq disp pq run open ev]. red_st.
+  cbn [b_todo b_next b_wdone b_fq b_disp b_pq b_run b_open b_ev] in *.
+  unfold step in Hs. cbn [b_todo b_next b_wdone b_fq b_disp b_pq b_run b_open b_ev] in Hs.
+  destruct l as [| | |k].
+  - destruct todo as [|o r].
+    + destruct wdone; [discriminate|]. injection Hs as <-. exact IH.
+    + injection Hs as <-. cbn [b_ev b_next]. intros e He. specialize (IH e He). lia.
+  - destruct disp as [|h0 [|b rest]| |]; cbn [disp_holds] in *.
+    + destruct fq as [|[h0 [js|]] r]; cbn [map fst] in *.
+      * destruct wdone; [|discriminate]. injection Hs as <-. exact IH.
+      * injection Hs as <-. cbn [b_ev b_next]. intros e [<-|He]; [cbn; apply Ifqlt; now left|now apply IH].
+      * injection Hs as <-. cbn [b_ev b_next]. intros e [<-|He]; [cbn; apply Ifqlt; now left|now apply IH].
+    + assert (h0 < next) as Hlt by (apply Ilive; rewrite Nat.eqb_refl; lia).
+      destruct (Nat.eqb_spec (count_h h0 pq + count_h h0 run) 0) as [E0|E0]; injection Hs as <-; cbn [b_ev b_next];
+        [intros e [<-|He]; [exact Hlt|now apply IH]|exact IH].
+    + destruct (Nat.ltb_spec (length pq) Q); [|discriminate]. injection Hs as <-. exact IH.
+    + destruct pq; [|discriminate]. destruct run; [|discriminate]. injection Hs as <-. exact IH.
+    + discriminate.
+  - destruct pq as [|j r]; [discriminate|]. destruct (Nat.ltb_spec (length run) W); [|discriminate].
+    injection Hs as <-. exact IH.
+  - destruct (nth_error run k) as [[h0 b]|] eqn:En; [|discriminate].
+    pose proof (fun x => count_h_remove_nth run k h0 b x En) as Hc.
+    assert (h0 < next) as Hlt by (apply Ilive; specialize (Hc h0); rewrite Nat.eqb_refl in Hc; lia).
+    destruct ((count_h h0 pq + count_h h0 (remove_nth k run) =? 0) && negb (disp_holds disp h0)); injection Hs as <-;
+      cbn [b_ev b_next]; intros e He.
+    + destruct He as [<-|[<-|He]]; [exact Hlt|exact Hlt|now apply IH].
+    + destruct He as [<-|He]; [exact Hlt|now apply IH].
+Qed.
